@@ -158,6 +158,23 @@ def Store.itBegin (S : Nat) (st : Store κ ν) : Pos := st.itAt S (0, 0)
 def Store.itNext (S : Nat) (st : Store κ ν) (p : Pos) : Pos := st.firstFrom S (Store.flat S p + 1)
 def Store.itPrev (S : Nat) (st : Store κ ν) (p : Pos) : Pos := st.lastBefore S (Store.flat S p)
 
+/-- the positions visited by `for (it = begin(); it != end(); ++it)` -/
+def Store.traverse (S : Nat) (st : Store κ ν) : List Pos :=
+  let rec go (p : Pos) (fuel : Nat) (acc : List Pos) : List Pos :=
+    match fuel with
+    | 0 => acc.reverse
+    | fuel + 1 => if p = st.endPos then acc.reverse else go (st.itNext S p) fuel (p :: acc)
+  go (st.itBegin S) (st.cells.size + 1) []
+
+/-- the positions visited by `for (it = end(); it != begin(); ) { --it; … }` -/
+def Store.traverseBack (S : Nat) (st : Store κ ν) : List Pos :=
+  let b := st.itBegin S
+  let rec go (p : Pos) (fuel : Nat) (acc : List Pos) : List Pos :=
+    match fuel with
+    | 0 => acc.reverse
+    | fuel + 1 => if p = b then acc.reverse else let q := st.itPrev S p; go q fuel (q :: acc)
+  go st.endPos (st.cells.size + 1) []
+
 /-- `locked_table::insert(key, val)` -/
 def Table.ltInsert [DecidableEq κ] (c : Cfg κ) (t : Table κ ν) (k : κ) (v : ν) : Table κ ν × Res (Pos × Bool) :=
   match insertLoop c true (c.fuel t.cur.cells.size) t k with
